@@ -82,13 +82,17 @@ def _c16_nontrivial(r):
 def _shrink_sim(op):
     head, _, script = op.partition(" daemon ")
     cmds = ("daemon " + script).split(" ; ")
+    # the first `run` fixes the start of the history's clock: API calls before it have no
+    # defined time (the two schedulers of `sim2` then disagree by construction)
+    first_run = next((k for k, c in enumerate(cmds) if c.startswith("run ")), -1)
     for k in range(len(cmds) - 1, 0, -1):
-        if cmds[k].startswith(("daemon", "link")):
+        if cmds[k].startswith(("daemon", "link")) or k == first_run:
             continue
         yield head + " " + " ; ".join(cmds[:k] + cmds[k + 1:])
 
 
 shrinkers["sim"] = _shrink_sim
+shrinkers["sim2"] = _shrink_sim
 
 
 def _sim_nontrivial(r):
@@ -757,8 +761,9 @@ CONFIG = {
     "C10": dict(
         modules=["Mdns.Props.C10"],
         model_files="Mdns/Model/Record.lean, Mdns/Model/Cache.lean",
-        nontrivial=_c10_nontrivial,
-        extra_evidence=_c10_extra,
+        nontrivial=lambda r: (_sim_nontrivial(r) if r["op"].startswith("sim") else _c10_nontrivial(r)),
+        extra_evidence=lambda recs: dict(_c10_extra([r for r in recs if not r["op"].startswith("sim")]),
+                                         daemon_level=_sim_extra([r for r in recs if r["op"].startswith("sim")])),
         rule="ops generated from VERIF_SEED by vharness (c11.rs): `suppress mine other` for every kind of record with the "
              "responder's TTL in {120, 4500, 0, 1, 2, 3, 7, 255, 121, 4501, 60, 10, u32::MAX-1, u32::MAX} and the listed TTL in "
              "{0, 1, h-1, h, h+1, full-1, full, full+1, u32::MAX} (h = half), the other record identical / with the cache-flush "
@@ -767,21 +772,27 @@ CONFIG = {
              "`cache-seq`: caches of shared and unique PTR/SRV/TXT/A/AAAA records asked for known answers at ages 0, 1 ms, "
              "1 s +-1 ms, half-life -1/0/+1 ms, +1 s, expiry, with update_ttl applied to every listed copy as send_query_vec does. "
              "Non-trivial = suppress with equal RDATA (TTL, class, bit or owner decide) / a decodable query / a `known` "
-             "command that lists at least one answer. Distinct = distinct op lines.",
+             "command that lists at least one answer. Distinct = distinct op lines. PLUS daemon level (`sim C10`, c07.rs generate_c10): "
+             "a responder with announced services on 1-3 interfaces and 4-10 injected queries of every kind that list its records as "
+             "known answers with TTLs 59/60/61 of 120 and 2249/2250/2251 of 4500, with and without the cache-flush bit, in the owner's "
+             "spelling or another letter case; inside the responder model (exact correspondence) and judged by "
+             "MonResponder.monitorKnownAnswers (a record listed with more than half its TTL is not sent).",
         level_text="Component level. suppress_iff (with the exact meaning of `matches` and of the integer half), its soundness for all "
                    "records, the querier's known_iff and the written-TTL bounds (no underflow under the half-life guard) are Lean "
                    "theorems for all records and caches; the model is compared with suppressed_by_answer / suppressed_by / "
                    "get_known_answers / update_ttl of the working tree on every run and the property's clauses are evaluated on "
                    "the real answers. The full responder statement is false of the code (witness theorem D18_witness) and is kept "
-                   "as C10_responder_full with suppress_partial proved; the daemon-level clauses (other matching records still "
-                   "answered, query sent on every interface) are not covered at this level.",
+                   "as C10_responder_full with suppress_partial proved. Daemon level (responder side): `sim C10` histories are inside the "
+                   "responder model (handle_query with its fold over the known answers: exact correspondence) and the suppression "
+                   "clause is evaluated on the real packets; the querier side (known answers listed in queries, per interface) is "
+                   "covered by the client model's correspondence under C03-C05.",
         level_note="Trusted: Lean kernel; axioms propext, Classical.choice, Quot.sound only; hand-written model tied to the code by "
                    "differential testing of this run's inputs. Partial: suppress_partial needs equal cache-flush bits and "
                    "(addresses) equal interface - defect D18; handle_query / send_query_vec are not modelled here.",
         partial=["suppress_partial: hypothesis mine.flush = other.flush and same interface for addresses (defect D18: "
                  "suppressed_by_answer uses `matches`, which compares the cache-flush bit and the interface)"],
         assumptions=[
-            "component level: the fold over the answers in handle_query and the per-interface sending of send_query_vec are not part of this check",
+            "daemon level judged only in iterations that read exactly one datagram and made no API call",
             "times below 2^62 ms (no u64 wrap); TTLs are u32",
             "lower-casing of host names is modelled on ASCII only; generated names are ASCII",
             "the exact half-life millisecond (now = created + 500*ttl) and a listed TTL of exactly half are not pinned by the statement (masked in the monitor)",
@@ -1246,7 +1257,9 @@ CONFIG["C07"] = dict(
                "jitter j creates, for every unique record the daemon does not hold, the probe of its name with start t0+j "
                "(registration_starts_probe), and with j >= 1 and a timely scheduler the probe queries for that name leave in "
                "exactly the iterations at t0+j, +250, +500 and the record is active after t0+j+750 "
-               "(registration_probe_lifecycle); after "
+               "(registration_probe_lifecycle), and the announcement leaves in the iteration at t0+j+750 and again in the one at "
+               "t0+j+1750 (registration_announced_twice, any service none of whose unique records is held, any daemon state); "
+               "after "
                "prepare_announce every unique record is active or in the probe of its name; a new probe starts at now+jitter; "
                "and the complete life cycle (three probes, nothing before, announcements at +750 and +1750 with the stated "
                "content) by kernel evaluation of the model for EVERY jitter 0..249 on a concrete registration and for a spread "
@@ -1258,9 +1271,10 @@ CONFIG["C07"] = dict(
              "probe_end_activates_records, probe_schedule_in_daemon (one probe through iter, any state), "
              "announcement_needs_active, announced_records_active and the evaluated instances (probe_lifecycle_partial); "
              "registration_starts_probe, registration_probe_lifecycle (registration -> three probes -> record active, any "
-             "state), first_announcement / second_announcement (step contracts of wakeService and RegisterResend); "
-             "missing: composing the two announcements (at +750 and +1750) with the probe schedule through iter for a "
-             "symbolic service",
+             "state), first_announcement / second_announcement (step contracts), registration_announced_twice (any service, "
+             "any daemon state, jitter >= 1: announcement in the iteration at t0+j+750 and again at t0+j+1750); missing for "
+             "the literal probe_lifecycle_full: jitter 0 in the composed theorem, 'exactly these packets and no others' "
+             "for a symbolic service (shown on the evaluated instances)",
              "the history invariant 'an active record was in the authority section of three probe queries 250 ms apart' is "
              "false of the code without a timely scheduler and for shared probes (findings D31, D33, D34): proved instead is "
              "active_only_after_probe (the probe is at least 750 ms old)",
@@ -1281,18 +1295,21 @@ CONFIG["C09"] = dict(
          "reply or a shutdown. Distinct = distinct scripts.",
     level_text="On the responder model (exact on these histories, compared with the real daemon every run) - Lean theorems: "
                "unregister answers OK exactly when the lower-cased name is registered, NotFound (and nothing else) otherwise; "
-               "on OK exactly one goodbye packet per interface and family in which the service has an in-subnet address: PTR, "
+               "on OK exactly one goodbye packet per interface on which the service is Announced and family in which it has an "
+               "in-subnet address there - and none elsewhere (goodbye_only_where_announced, goodbye_where_announced; the "
+               "statement's 'only where the service was announced' holds since the repair of D30, the witness of its former "
+               "negation is a regression example and a corpus case): PTR, "
                "subtype PTR, SRV, TXT, those addresses, every record TTL 0, id 0; each packet queued once more for +120 ms with "
-               "the same content and a timer armed; the repeat sends the very same packet; shutdown does the same for every "
+               "the same content and a timer armed; the repeat sends the very same packet; the unregistered service is taken "
+               "out of the probes it waited for, and a probe nobody else waits for is dropped (unregister_leaves_probes); "
+               "shutdown does the same for every "
                "service and forgets everything; afterwards the name is not registered, other services are untouched, the "
-               "queued second announcement is a no-op and queries are answered from the remaining services only. The "
-               "statement's 'only where the service was announced' is FALSE of the code: goodbye_while_probing proves the "
-               "negation on a witness (finding D30, also executed on the real code from corpus/C09).",
+               "queued second announcement is a no-op and queries are answered from the remaining services only.",
     level_note=_RESP_TRUST + "The goodbye always carries the names as registered; after a rename by conflict resolution that "
                "is the wrong name (D21, recorded under C08).",
-    partial=["goodbye_contract_full ('a goodbye only where the service is Announced') is false of the code (D30); proved is "
-             "goodbye_contract / goodbye_contract_partial: one packet per interface and family with an in-subnet address, "
-             "whatever the status",
+    partial=["'Announced' is the per-interface status of the CURRENT registration: it is set when either family was announced "
+             "(D32) and starts over at a re-registration (D40) - with these two known findings 'where announced' differs from "
+             "'where some packet announced it'",
              "'under the names most recently announced' is not claimed (original names are used, D21)"],
     assumptions=_RESP_ASSUME,
 )
